@@ -24,7 +24,22 @@ EXPLANATION = (
     "subclasses of their root (msgspec does not decode subclasses); R12.2 in "
     "every class defining __eq__/__hash__ each hashed projection of self is a "
     "function of a compared projection, and a hash helper that walks a set is "
-    "order-free; R12.3 the AST handed to SerializableAst(...) has passed "
+    "order-free.  __eq__ is read path by path (path condition + the conjuncts "
+    "of the returned expression): a path with a same-class test "
+    "(isinstance(other, type(self) | self.__class__ | the class), "
+    "type/__class__ equality) contributes its `E(self) == E(other)` "
+    "comparisons (exact class equality also makes self.__class__ hashable); "
+    "`self is other`, False and NotImplemented contribute nothing; a path "
+    "WITHOUT a positive same-class test that compares `other` as a whole "
+    "(`P(self) == other`) can return True for an object of a different "
+    "class, so hash(self) must equal hash(other) = hash(P(self)) there: "
+    "__hash__ must return hash(P(self)) (or P(self).__hash__()) on a path "
+    "whose self-only conditions are among the arm's; a generated/struct/"
+    "identity hash or a __hash__ that never returns hash(P(self)) is a "
+    "violation; an un-decidable implication is an analysis error.  A "
+    "__hash__ with several returns is accepted when every returned "
+    "expression and every test choosing between them only uses compared "
+    "projections; R12.3 the AST handed to SerializableAst(...) has passed "
     "ClearClassPointers, CanonicalOrderingVisitor (nothing re-ordering after "
     "it) and ClearLookupCache on every path, and ClearLookupCache clears the "
     "cache of every class that has one; R12.4 the encoder is deterministic, "
@@ -42,7 +57,12 @@ EXPLANATION = (
     "type(`value`) because Pyval.from_const builds "
     "cls(type(node.value).__name__, node.value), over the payload types of "
     "ast.Constant minus what the from_const call sites exclude) yields the "
-    "types the argument can have; unknown is never reported.  Necessary "
+    "types the argument can have; unknown is never reported.  Blind spots "
+    "of R12.2: whether the OTHER class's __eq__ agrees (symmetry), __eq__ "
+    "arms written with or/IfExp or through helpers (analysis error), "
+    "hash(P) written in an algebraically equal but syntactically different "
+    "way (reported), __ne__, subclasses that override only one of the pair "
+    "in another module.  Necessary "
     "conditions only: the behaviour of msgspec's encoder/decoder and the "
     "visitors' bodies beyond the named statements are not decided.")
 ASSUMPTIONS = [
@@ -53,6 +73,9 @@ ASSUMPTIONS = [
     "msgspec generates __eq__/__hash__ over all struct fields unless eq=False "
     "is given; a class without a generated or written __eq__ compares by "
     "identity",
+    "R12.2: the members compared by a foreign arm obey the eq/hash law "
+    "themselves (a == b implies hash(a) == hash(b)), and hash(f(x)) differs "
+    "from hash(x) for some x unless f is the identity",
     "ClassType nodes are mutated in place by ClearClassPointers and shared by "
     "the copies later visitors make",
     "R12.6: msgspec.Struct construction does not validate field types; an "
@@ -141,33 +164,150 @@ def _swap_self(expr_src, a, b):
   return ast.unparse(tree)
 
 
-def _compared_projections(fn):
-  """Expressions E(self) with `E(self) == E(other)` in __eq__; (set, notes)."""
+def _names(e):
+  return {x.id for x in ast.walk(e) if isinstance(x, ast.Name)}
+
+
+def _same_class_test(c, me, other, clsname):
+  """(kind, sense) when `c` tests whether `other` belongs to the class
+  (hierarchy) whose __eq__ this is, else None.  kind "member":
+  isinstance(other, type(self) | self.__class__ | <the class itself>); kind
+  "exact": type(self) ==/is type(other), self.__class__ ==/is other.__class__
+  (sense False for != / is not)."""
+  if isinstance(c, ast.Call) and dotted(c.func) == "isinstance" and len(c.args) == 2 \
+      and dotted(c.args[0]) == other:
+    if src(c.args[1]) in (f"type({me})", f"{me}.__class__", clsname):
+      return "member", True
+    return None
+  if isinstance(c, ast.Compare) and len(c.ops) == 1 and \
+      isinstance(c.ops[0], (ast.Eq, ast.Is, ast.NotEq, ast.IsNot)):
+    pair = {src(c.left), src(c.comparators[0])}
+    if pair in ({f"type({me})", f"type({other})"},
+                {f"{me}.__class__", f"{other}.__class__"}):
+      return "exact", isinstance(c.ops[0], (ast.Eq, ast.Is))
+  return None
+
+
+def _flatten(test, pol, out):
+  """Literals (expr, polarity) of a path-condition test; an opaque compound
+  stays whole."""
+  while isinstance(test, ast.UnaryOp) and isinstance(test.op, ast.Not):
+    test, pol = test.operand, not pol
+  if isinstance(test, ast.BoolOp) and isinstance(test.op, ast.And) == pol:
+    for v in test.values:
+      _flatten(v, pol, out)
+  else:
+    out.append((test, pol))
+
+
+def _projection_pair(c, me, other):
+  """E for a comparison `E(self) <op> E(other)` (same E on both sides)."""
+  l, r = c.left, c.comparators[0]
+  nl, nr = _names(l), _names(r)
+  if me in nl and other in nr and \
+      _swap_self(src(l), me, "self") == _swap_self(src(r), other, "self"):
+    return _swap_self(src(l), me, "self")
+  if me in nr and other in nl and \
+      _swap_self(src(r), me, "self") == _swap_self(src(l), other, "self"):
+    return _swap_self(src(r), me, "self")
+  return None
+
+
+def _eq_arms(mod, fn, clsname):
+  """Path-wise reading of __eq__.
+
+  Returns (compared, foreign): `compared` = the projections E with
+  `E(self) == E(other)` required on the paths where `other` is known to belong
+  to the class; `foreign` = the arms that can answer something other than
+  False/NotImplemented for an `other` that is NOT known to belong to the class
+  and compare it as a whole: dicts {"proj": P(self) as text over `self`,
+  "when": self-only path literals, "definitely_foreign": the path NEGATES the
+  same-class test, "line"}."""
   if len(fn.args.args) != 2:
     raise AnalysisError(f"{fn.name}: unexpected parameters")
   me, other = fn.args.args[0].arg, fn.args.args[1].arg
-  out = set()
-  for n in ast.walk(fn):
-    if not isinstance(n, ast.Compare):
+  compared, foreign = set(), []
+  rets = [n for n in walk_no_nested(fn) if isinstance(n, ast.Return)]
+  if not rets:
+    raise AnalysisError("__eq__: no return")
+  for ret in rets:
+    v = ret.value
+    if v is None:
+      raise AnalysisError("__eq__: bare return")
+    if (isinstance(v, ast.Constant) and v.value is False) or \
+        (isinstance(v, ast.Name) and v.id == "NotImplemented"):
+      continue   # never claims equality
+    lits = []
+    for t, pol in flow.guards(mod.parent, ret, stop=fn):
+      _flatten(t, pol, lits)
+    n_guard = len(lits)
+    if not (isinstance(v, ast.Constant) and v.value is True):
+      _flatten(v, True, lits)
+    same = not_same = identity = False
+    projs, whole, when = [], [], []
+    for i, (c, pol) in enumerate(lits):
+      sc = _same_class_test(c, me, other, clsname)
+      if sc:
+        pol = pol == sc[1]
+        same, not_same = same or pol, not_same or not pol
+        if sc[0] == "exact" and pol:
+          # equal objects have the same class: it may be hashed
+          projs.extend(["self.__class__", "type(self)"])
+        continue
+      if isinstance(c, ast.Compare) and len(c.ops) == 1 and \
+          isinstance(c.ops[0], (ast.Is, ast.IsNot)) and \
+          {src(c.left), src(c.comparators[0])} == {me, other}:
+        identity = identity or (isinstance(c.ops[0], ast.Is) == pol)
+        continue
+      names = _names(c)
+      if other not in names:
+        when.append((_swap_self(src(c), me, "self"), pol))
+        continue
+      if isinstance(c, ast.Compare) and len(c.ops) == 1 and \
+          isinstance(c.ops[0], (ast.Eq, ast.NotEq)):
+        eq_holds = isinstance(c.ops[0], ast.Eq) == pol
+        e = _projection_pair(c, me, other)
+        if e is not None and eq_holds:
+          projs.append(e)
+          continue
+        l, r = c.left, c.comparators[0]
+        if dotted(r) == other and other not in _names(l):
+          l, r = r, l
+        if dotted(l) == other and other not in _names(r) and eq_holds:
+          whole.append((_swap_self(src(r), me, "self"), me in _names(r)))
+          continue
+        if e is not None or dotted(l) == other:
+          # an inequality that holds on this path: no obligation by itself
+          if i < n_guard:
+            continue
+      if i < n_guard and isinstance(c, ast.Call) and \
+          dotted(c.func) == "isinstance" and dotted(c.args[0]) == other:
+        # membership of `other` in some other class: narrows, proves nothing
+        continue
+      raise AnalysisError(f"__eq__: comparison {src(c)} is not E(self) == E(other)")
+    if identity and not projs and not whole:
+      continue   # `self is other`
+    if same and not whole:
+      if not projs and not (isinstance(v, ast.Constant) and v.value is True):
+        raise AnalysisError(f"__eq__: `return {src(v)}` compares nothing")
+      compared.update(projs)
       continue
-    if len(n.ops) != 1:
-      raise AnalysisError("__eq__: chained comparison")
-    l, r = n.left, n.comparators[0]
-    names_l = {x.id for x in ast.walk(l) if isinstance(x, ast.Name)}
-    names_r = {x.id for x in ast.walk(r) if isinstance(x, ast.Name)}
-    if isinstance(n.ops[0], (ast.Is, ast.IsNot)):
-      continue  # identity shortcut
-    if not isinstance(n.ops[0], ast.Eq):
-      raise AnalysisError(f"__eq__: comparison {src(n)} not understood")
-    if me in names_l and other in names_r and \
-        _swap_self(src(l), me, "self") == _swap_self(src(r), other, "self"):
-      out.add(_swap_self(src(l), me, "self"))
-    elif me in names_r and other in names_l and \
-        _swap_self(src(r), me, "self") == _swap_self(src(l), other, "self"):
-      out.add(_swap_self(src(r), me, "self"))
-    else:
-      raise AnalysisError(f"__eq__: comparison {src(n)} is not E(self) == E(other)")
-  return out
+    if projs and not whole and not not_same:
+      # duck-typed equality (`self.x == other.x`, class not tested): whatever
+      # class `other` has, only these projections are compared
+      compared.update(projs)
+      continue
+    if whole and not same:
+      for proj, mentions_self in whole:
+        foreign.append({"proj": proj, "mentions_self": mentions_self,
+                        "when": sorted(when), "also_compared": sorted(projs),
+                        "definitely_foreign": not_same, "line": ret.lineno})
+      continue
+    raise AnalysisError(
+        f"__eq__: `return {src(v)}` at line {ret.lineno} can claim equality "
+        "with an `other` whose class is not tested (or mixes a same-class test "
+        "with a comparison against `other` as a whole): not understood")
+  return compared, foreign
 
 
 def _uncovered_self(expr, me, compared):
@@ -232,6 +372,119 @@ def _order_free_helper(mod, fname):
   return fn, walks
 
 
+def _hash_paths(mod, hs):
+  """[(self-only path literals as text over `self`, return value node)]."""
+  me = hs.args.args[0].arg
+  out = []
+  for r in walk_no_nested(hs):
+    if not isinstance(r, ast.Return) or r.value is None:
+      continue
+    lits = []
+    for t, pol in flow.guards(mod.parent, r, stop=hs):
+      _flatten(t, pol, lits)
+    out.append(([(_swap_self(src(c), me, "self"), pol) for c, pol in lits],
+                [c for c, _ in lits], r))
+  return out
+
+
+def _is_hash_of(h, proj, me):
+  """`h` is hash(P) / P.__hash__() for the projection text P (over `self`)."""
+  if isinstance(h, ast.Call) and dotted(h.func) == "hash" and len(h.args) == 1 \
+      and not h.keywords:
+    return _swap_self(src(h.args[0]), me, "self") == proj
+  if isinstance(h, ast.Call) and isinstance(h.func, ast.Attribute) and \
+      h.func.attr == "__hash__" and not h.args:
+    return _swap_self(src(h.func.value), me, "self") == proj
+  return False
+
+
+def _foreign_arms(ctx, rel, mod, cd, hs, struct_info, foreign, facts):
+  """An __eq__ arm that can return True for an `other` outside the class
+  (`P(self) == other`) forces hash(self) == hash(other) == hash(P(self)) there:
+  __hash__ must return hash(P(self)) on every path the arm's condition allows."""
+  n = 0
+  for k, arm in enumerate(foreign):
+    n += 1
+    name = f"{cd.name}:eq-foreign-arm" + (f"#{k + 1}" if k else "")
+    f2 = facts | {"arm": f"{arm['proj']} == other", "when": arm["when"],
+                  "other_is_never_same_class": arm["definitely_foreign"]}
+    if not arm["mentions_self"]:
+      raise AnalysisError(
+          f"{cd.name}.__eq__: `{arm['proj']} == other` does not involve self: "
+          "not understood")
+    if hs is None:
+      hashable = struct_info is not None and struct_info["frozen"] and \
+          struct_info["eq"] is not False
+      if not hashable and struct_info is None:
+        # plain class with __eq__ and no __hash__: Python sets __hash__ = None
+        hashable = False
+      ctx.check(not hashable, name, rel, arm["line"],
+                f"{cd.name}.__eq__ can return True for an `other` that is not a "
+                f"{cd.name} (`{arm['proj']} == other`) but the class keeps the "
+                "generated hash over its fields, which the other object's hash "
+                "cannot equal", f2 | {"hash": "generated" if hashable else None})
+      continue
+    me = hs.args.args[0].arg
+    paths = _hash_paths(mod, hs)
+    mirrored = [p for p in paths if _is_hash_of(p[2].value, arm["proj"], me)]
+    when = set(arm["when"])
+    if not mirrored:
+      ctx.bad(name, rel, arm["line"],
+              f"{cd.name}.__eq__ can return True for an `other` that is not a "
+              f"{cd.name}: `{arm['proj']} == other`"
+              + (f" when {' and '.join(('' if p else 'not ') + t for t, p in arm['when'])}"
+                 if arm["when"] else "")
+              + f"; then hash(other) == hash({arm['proj']}) must equal "
+              f"hash(self), but __hash__ returns "
+              f"{' / '.join(sorted({src(p[2].value) for p in paths}))} and never "
+              f"hash({arm['proj']}): equal nodes hash differently, so set/dict "
+              "de-duplication keeps both",
+              f2 | {"hash_returns": sorted({src(p[2].value) for p in paths})})
+      continue
+    # the mirrored return must be taken whenever the arm applies
+    ok = any(set(p[0]) <= when for p in mirrored)
+    if not ok:
+      raise AnalysisError(
+          f"{cd.name}.__hash__ returns hash({arm['proj']}) under "
+          f"{[p[0] for p in mirrored]} but the __eq__ arm applies under "
+          f"{arm['when']}: implication not decided")
+    ctx.ok(name, rel, arm["line"], f2 | {"mirrored_by": src(mirrored[0][2])})
+  return n
+
+
+def _multi_return_hash(ctx, rel, mod, cd, hs, rets, compared, eq_kind,
+                       struct_info, facts):
+  """__hash__ with several returns: every returned expression and every test
+  choosing between them must be a function of compared projections."""
+  me = hs.args.args[0].arg
+  name = cd.name
+  if compared is None:
+    if eq_kind == "struct-fields":
+      compared = {f"self.{f}" for f in struct_info["fields"]}
+    else:
+      compared = set()
+  unc = []
+  for lits_txt, lit_nodes, r in _hash_paths(mod, hs):
+    for e in [r.value] + lit_nodes:
+      if isinstance(e, ast.Call) and isinstance(e.func, ast.Attribute) and \
+          e.func.attr == "__hash__" and isinstance(e.func.value, ast.Call) and \
+          dotted(e.func.value.func) == "super":
+        raise AnalysisError(f"{name}.__hash__: super().__hash__() on one of "
+                            "several paths: not understood")
+      if src(e) == f"id({me})":
+        unc.append(e)
+        continue
+      unc.extend(_uncovered_self(e, me, compared))
+  ctxs = sorted({_minimal_context(mod, n, hs) if isinstance(n, ast.Name) else src(n)
+                 for n in unc})
+  facts = facts | {"hashed": sorted({src(r.value) for r in rets})}
+  ctx.check(not unc, f"{name}:eq-hash", rel, hs.lineno,
+            f"{name}.__hash__ (several returns) uses the projection(s) {ctxs} "
+            f"but __eq__ compares {sorted(compared)}; two equal objects can "
+            "hash differently", facts | {"uncovered": ctxs})
+  return 1
+
+
 def _eq_hash_class(ctx, rel, mod, cd, struct_info):
   """One instance per class defining __eq__ and/or __hash__."""
   meths = {st.name: st for st in cd.body
@@ -240,8 +493,9 @@ def _eq_hash_class(ctx, rel, mod, cd, struct_info):
   if eq is None and hs is None:
     return 0
   name = cd.name
-  compared = _compared_projections(eq) if eq is not None else None
+  compared, foreign = _eq_arms(mod, eq, name) if eq is not None else (None, [])
   facts = {"compared": sorted(compared) if compared is not None else None}
+  n_extra = _foreign_arms(ctx, rel, mod, cd, hs, struct_info, foreign, facts)
   # what kind of equality does the class have?
   if eq is not None:
     eq_kind = "custom"
@@ -265,11 +519,14 @@ def _eq_hash_class(ctx, rel, mod, cd, struct_info):
     else:
       ctx.ok(f"{name}:eq-hash", rel, cd.lineno, facts | {"hashed": None,
                                                          "note": "unhashable"})
-    return 1
+    return 1 + n_extra
   me = hs.args.args[0].arg
   rets = [n for n in walk_no_nested(hs) if isinstance(n, ast.Return)]
-  if len(rets) != 1 or rets[0].value is None:
-    raise AnalysisError(f"{name}.__hash__: expected one `return <expr>`")
+  if not rets or any(r.value is None for r in rets):
+    raise AnalysisError(f"{name}.__hash__: expected `return <expr>`")
+  if len(rets) > 1:
+    return _multi_return_hash(ctx, rel, mod, cd, hs, rets, compared, eq_kind,
+                              struct_info, facts) + n_extra
   h = rets[0].value
   facts["hashed"] = src(h)
   # shape A: struct hash of (a copy of) self
@@ -299,13 +556,13 @@ def _eq_hash_class(ctx, rel, mod, cd, struct_info):
     ctx.check(eq_kind == "struct-fields", f"{name}:eq-hash", rel, hs.lineno,
               f"{name}.__hash__ hashes the struct fields, but equality is "
               f"{eq_kind}: a field that is hashed is not compared", facts)
-    return 1
+    return 1 + n_extra
   # shape B: identity hash
   if src(h) == f"id({me})":
     ctx.check(eq_kind == "identity", f"{name}:eq-hash", rel, hs.lineno,
               f"{name}.__hash__ is id(self) but equality is {eq_kind}: equal "
               "objects would hash differently", facts)
-    return 1
+    return 1 + n_extra
   # shape C: an expression over self projections
   if compared is None:
     if eq_kind == "struct-fields":
@@ -320,7 +577,7 @@ def _eq_hash_class(ctx, rel, mod, cd, struct_info):
             f"{name}.__hash__ returns {src(h)}: the projection(s) {ctxs} are "
             f"hashed but __eq__ compares {sorted(compared)}; two equal objects "
             "can hash differently", facts | {"uncovered": ctxs})
-  return 1
+  return 1 + n_extra
 
 
 @rule("R12.2", "C12", floor=8)
@@ -1036,6 +1293,12 @@ PYI_TYPES = "pytype/pyi/types.py"
 _FLOAT_ARM = ("    elif self.type == \"float\":\n"
               "      raise ParseError(f\"Invalid type `float` in Literal[{self.value}].\")\n")
 
+_SET_EQ = ("    if self is other:\n      return True\n"
+           "    if isinstance(other, type(self)):\n"
+           "      # equality doesn't care about the ordering of the type_list\n"
+           "      return frozenset(self.type_list) == frozenset(other.type_list)\n"
+           "    return NotImplemented\n")
+
 VARIANTS = [
     # -- R12.1 -----------------------------------------------------------------
     {"name": "field-admits-only-generic-base", "rule": "R12.1", "file": PYTD, "expect": "fire",
@@ -1079,6 +1342,45 @@ VARIANTS = [
     {"name": "class-custom-eq-keeps-field-hash", "rule": "R12.2", "file": PYTD, "expect": "fire",
      "old": "  def __hash__(self):\n    # _name2item is a dict, so it can't be hashed.",
      "new": "  def __eq__(self, other):\n    return self.__class__ == other.__class__ and self.name == other.name\n\n  def __hash__(self):\n    # _name2item is a dict, so it can't be hashed."},
+    {"name": "seeded-C12-r2m2", "rule": "R12.2", "patch": "seeded/C12-r2m2/patch.diff",
+     "expect": "fire"},
+    {"name": "classtype-equals-its-name-string", "rule": "R12.2", "file": PYTD, "expect": "fire",
+     "old": "    return self.__class__ == other.__class__ and self.name == other.name\n\n  def __ne__",
+     "new": "    if isinstance(other, str):\n      return self.name == other\n"
+            "    return self.__class__ == other.__class__ and self.name == other.name\n\n  def __ne__"},
+    {"name": "and-term-equals-a-bare-frozenset", "rule": "R12.2", "file": BOOLEQ, "expect": "fire",
+     "old": "    return self.__class__ == other.__class__ and self.exprs == other.exprs\n\n"
+            "  def __repr__(self):\n    return f\"And(",
+     "new": "    if self.__class__ != other.__class__:\n      return other == self.exprs\n"
+            "    return self.exprs == other.exprs\n\n"
+            "  def __repr__(self):\n    return f\"And("},
+    {"name": "classtype-duck-typed-equality", "rule": "R12.2", "file": PYTD, "expect": "fire",
+     "old": "    return self.__class__ == other.__class__ and self.name == other.name\n\n  def __ne__",
+     "new": "    return self.name == other.name\n\n  def __ne__"},
+    {"name": "twin-setoftypes-foreign-other-leaves-first", "rule": "R12.2", "file": PYTD,
+     "expect": "silent", "old": _SET_EQ,
+     "new": "    if self is other:\n      return True\n"
+            "    if not isinstance(other, type(self)):\n      return NotImplemented\n"
+            "    return frozenset(other.type_list) == frozenset(self.type_list)\n"},
+    {"name": "twin-setoftypes-singleton-mirrored-in-hash", "rule": "R12.2", "expect": "silent",
+     "edits": [
+         (PYTD, _SET_EQ,
+          "    if self is other:\n      return True\n"
+          "    if isinstance(other, type(self)):\n"
+          "      return frozenset(self.type_list) == frozenset(other.type_list)\n"
+          "    if len(frozenset(self.type_list)) == 1:\n"
+          "      return next(iter(frozenset(self.type_list))) == other\n"
+          "    return NotImplemented\n"),
+         (PYTD, "    return hash(frozenset(self.type_list))\n",
+          "    if len(frozenset(self.type_list)) == 1:\n"
+          "      return hash(next(iter(frozenset(self.type_list))))\n"
+          "    return hash(frozenset(self.type_list))\n")]},
+    {"name": "setoftypes-singleton-hash-chosen-by-tuple-length", "rule": "R12.2", "expect": "fire",
+     "edits": [
+         (PYTD, "    return hash(frozenset(self.type_list))\n",
+          "    if len(self.type_list) == 1:\n"
+          "      return hash(self.type_list[0])\n"
+          "    return hash(frozenset(self.type_list))\n")]},
     {"name": "twin-hash-via-sum-of-hashes", "rule": "R12.2", "file": BOOLEQ, "expect": "silent",
      "old": "  return hash(tuple(sorted(hash(e) for e in expr_set)))",
      "new": "  return hash(sum(hash(e) for e in expr_set))"},
